@@ -340,6 +340,53 @@ def holds(s, c):
     raise ValueError("stmt " + repr(s))
 
 
+BOOL_OPS = ("==", "!=", "<", "<=", ">", ">=")
+
+
+def is_boolean(e):
+    """the expression is a condition (comparison, membership, negation or and/or of conditions): what generated
+    statements and if/implies conditions always are.  Structural reduction can leave other shapes behind."""
+    if not isinstance(e, list) or not e:
+        return False
+    k = e[0]
+    if k in ("in", "inl"):
+        return True
+    if k == "not":
+        return len(e) > 1 and is_boolean(e[1])
+    if k == "bin" and len(e) == 4:
+        if e[1] in BOOL_OPS:
+            return not is_boolean(e[2]) and not is_boolean(e[3]) and isinstance(e[2], list) and isinstance(e[3], list)
+        if e[1] in ("&", "|"):
+            return is_boolean(e[2]) and is_boolean(e[3])
+    return False
+
+
+def well_formed(s):
+    """statement has the shape the generators produce (used to discard candidates of the structural reducer)"""
+    if not isinstance(s, list) or not s:
+        return False
+    k = s[0]
+    try:
+        if k == "expr":
+            return is_boolean(s[1])
+        if k == "if":
+            if not s[1]:
+                return False
+            for arm in s[1]:
+                if len(arm) != 2 or not is_boolean(arm[0]) or not arm[1] or not all(well_formed(b) for b in arm[1]):
+                    return False
+            return s[2] is None or (bool(s[2]) and all(well_formed(b) for b in s[2]))
+        if k == "implies":
+            return is_boolean(s[1]) and bool(s[2]) and all(well_formed(b) for b in s[2])
+        if k == "foreach":
+            return len(s) == 5 and bool(s[4]) and all(well_formed(b) for b in s[4])
+        if k == "soft":
+            return is_boolean(s[1])
+    except (IndexError, TypeError):
+        return False
+    return True
+
+
 def all_hold(stmts, types, env, dyn=None):
     c = Ctx(types, env, dyn)
     return all(holds(s, c) for s in stmts)
